@@ -493,6 +493,8 @@ theorem source_tie_widths :
     MJ.Gen.c14Bits_first_instruction = MJ.Gen.c14Bits_span_offset :=
   ⟨satInc_width, asU32_width, by decide, by decide, by decide, by decide, by decide⟩
 
+example : satInc 7 = 8 ∧ satInc 65535 = 65535 ∧ asU32 4294967301 = 5 := by decide
+
 example : rowLocated ("CompareAndPreserve", "In|NotIn", "ctx_ok", "ops::contains") = true ∧
     rowLocated ("CompareAndPreserve", "In|NotIn", "ok", "ops::contains") = false := by decide
 
